@@ -70,9 +70,12 @@ def search(bdir, row, hmcs, net, threads, hashmb, prelude=()):
             fen = row_fen(row, hmc)
             hk = zlib.crc32(fen.encode())
             if hmc != hmcs[0] and (hk & 3) == 0:
-                # a new game / Clear Hash between two searches of the same ending: the table is generated afresh
+                # a new game / Clear Hash between two searches of the same ending: the table is generated afresh.  The root is then
+                # searched at its FIRST clock again (where the exact mate is owed), not beyond the 50-move edge
                 eng.send("ucinewgame" if (hk & 4) else "setoption name Clear Hash")
                 eng.isready(60)
+                hmc = hmcs[0]
+                fen = row_fen(row, hmc)
             eng.send(f"position fen {fen}")
             eng.send("go infinite")
             last = None
